@@ -16,7 +16,7 @@ RULE = ('request histories of 400 (quick) / 4000 (thorough) steps per worker ove
         'out-of-range values must raise ValueError) x {new recogniser per request, long-lived recogniser, recogniser with a target culture}. '
         'non-trivial = a request that returned a model; distinct = distinct (recogniser, getter, culture string, fallback, options).')
 EXHAUSTIVE = False
-JOB_TIMEOUT = 1800
+JOB_TIMEOUT = 5400
 
 GETTERS = {
     'NumberRecognizer': [('get_number_model', 'NumberModel'), ('get_ordinal_model', 'OrdinalModel'), ('get_percentage_model', 'PercentModel')],
